@@ -293,9 +293,9 @@ def runM (s : DState) (name : String) (args : List SExp) : M String := do
     let spec := showSortedE canonN (Spec.dedupFirst e (this.getD [] ++ that.getD []))
     let model := match unionMap id this that with
       | .panic => "panic"
-      | .ok out =>
+      | .ok (out, after) =>
         showSortedE canonN (out.getD []) ++ ";" ++ nilness out ++ "," ++ showSortedE canon (out.getD [])
-          ++ "," ++ nilness out ++ "," ++ showSortedE canon (out.getD [])
+          ++ "," ++ nilness after ++ "," ++ showSortedE canon (after.getD [])
     pure (ans model spec)
   | "intersectm", [t, a, b] =>
     let K ← getTy s t
